@@ -14,6 +14,7 @@ import operator
 from fractions import Fraction
 
 RTOL = 1e-10
+RTOL_F4 = 5e-6
 INT_LIMIT = 2**31 - 1
 BASES = ["delta_degC", "delta_degF", "degC", "degF", "K", "R"]
 PREFIXES = ["", "Y", "Z", "E", "P", "T", "G", "M", "k", "h", "da", "d", "c", "m", "u", "n", "p", "f", "a", "z", "y"]
@@ -27,8 +28,31 @@ def setup(common=None):
     _U.update(np=np, unyt=unyt, ua=unyt.unyt_array, uq=unyt.unyt_quantity)
 
 
+_PFX_CHARS = {"micro_sign": "\u00b5", "micro_mu": "\u03bc"}
+_DT = {"f8": "float64", "f4": "float32", "i2": "int16", "u2": "uint16", "i4": "int32", "u4": "uint32", "i8": "int64"}
+
+
 def name(u):
-    return u["pfx"] + u["base"]
+    return _PFX_CHARS.get(u["pfx"], u["pfx"]) + u["base"]
+
+
+_RTOL_SRC = {"f8": 1e-10, "i8": 1e-10, "f4": 5e-6, "i4": 5e-6, "u4": 5e-6, "i2": 2e-3, "u2": 2e-3}
+
+
+def _rtol_of(r, case=None):
+    """tolerance of the float type the library computed in: the result's, or the one its source dtype converts to
+    (to_value of a scalar returns a Python float holding float16/float32 precision)."""
+    if case is not None:
+        return max(_rtol_of(r), _RTOL_SRC.get(case.get("dt", "f8"), RTOL))
+    np = _U["np"]
+    dt = np.asarray(r).dtype
+    if dt.kind in "fc":
+        size = dt.itemsize // (2 if dt.kind == "c" else 1)
+        if size == 2:
+            return 2e-3
+        if size == 4:
+            return RTOL_F4
+    return RTOL
 
 
 def _frac(p):
@@ -48,13 +72,14 @@ def _label(units):
 
 _ZERO_K = {"degC": Fraction(27315, 100), "degF": Fraction(45967, 180)}
 _EXP = dict(zip(PREFIXES, [0, 24, 21, 18, 15, 12, 9, 6, 3, 2, 1, -1, -2, -3, -6, -9, -12, -15, -18, -21, -24]))
+_EXP.update(micro_sign=-6, micro_mu=-6)
 
 
 def _scale(u):
     return (Fraction(5, 9) if u["base"] in ("R", "degF", "delta_degF") else Fraction(1)) * Fraction(10) ** _EXP[u["pfx"]]
 
 
-def _conv_atol(case):
+def _conv_atol(case, rtol=RTOL):
     """absolute tolerance of a conversion, in target readings at the case's decimal exponent: a conversion
     between scales with different zero points (or through one) is only as accurate as the absolute
     temperatures involved allow (273.15 K expressed in ndegC cancels to ~1e-16 relative of 2.7e11)."""
@@ -63,7 +88,7 @@ def _conv_atol(case):
         return Fraction(0)
     xmax = max(abs(_frac(p)) for p in case["x0"])
     mag = (_ZERO_K.get(u["base"], 0) + _ZERO_K.get(v["base"], 0) + _scale(u) * xmax) / _scale(v)
-    return Fraction(RTOL) * mag / Fraction(10) ** int(case["t"]["k10"])
+    return Fraction(rtol) * mag / Fraction(10) ** int(case["t"]["k10"])
 
 
 def _enc(x, cands, k10, atol=0, first=None):
@@ -107,19 +132,22 @@ def _project(r, case, with_values=True):
         lab = {"base": "?", "pfx": "bare"}
     else:
         lab = _label(units)
-    atol = _conv_atol(case) if case["fam"] == "conv" else 0
+    rtol = _rtol_of(arr, case)
+    atol = _conv_atol(case, rtol) if case["fam"] == "conv" else 0
     tv = [_frac(p) for p in case["t"]["v"]]
     flat = list(arr.reshape(-1))
-    v = [_enc(x, cands, k10, atol, tv[j] if len(tv) == len(flat) else None) for j, x in enumerate(flat)] if with_values else []
+    v = [_enc_tol(x, cands, rtol, atol, tv[j] if len(tv) == len(flat) else None, k10) for j, x in enumerate(flat)] if with_values else []
     return {"k": "val", "exc": "", "unit": lab, "v": v}
 
 
 def _operand(case, side, unit_name=None):
+    np = _U["np"]
     xs = [float(_frac(p)) for p in case["x%d" % side]]
     un = unit_name or name(case["u%d" % side])
+    dt = np.dtype(_DT[case.get("dt", "f8")] if case["fam"] == "conv" else "float64")
     if case["shape"] == "sc":
-        return _U["uq"](xs[0], un)
-    return _U["ua"](xs, un)
+        return _U["uq"](dt.type(xs[0]), un)
+    return _U["ua"](np.array(xs, dtype=dt), un)
 
 
 def _conv(case):
@@ -138,6 +166,9 @@ def _conv(case):
         return type(q)(q.to_value(tgt), tgt)
     if via == "in_base":
         return q.in_base()
+    if via == "convert_to_base":
+        q.convert_to_base()
+        return q
     raise ValueError(via)
 
 
@@ -260,9 +291,6 @@ def _ref(case):
     raise ValueError(op + "/" + form)
 
 
-RTOL_F4 = 5e-6
-
-
 def _mag_atol(case, label, rtol):
     """cancellation allowance for a reading of the source expressed in `label` (see _conv_atol)."""
     u = case["u0"]
@@ -284,12 +312,12 @@ def _vals(r, case, label, cands, first, rtol):
     return out
 
 
-def _enc_tol(x, cands, rtol, atol, first):
+def _enc_tol(x, cands, rtol, atol, first, k10=0):
     global RTOL
     old = RTOL
     RTOL = rtol
     try:
-        return _enc(x, cands, 0, atol, first)
+        return _enc(x, cands, k10, atol, first)
     finally:
         RTOL = old
 
@@ -307,9 +335,16 @@ def _apply_route(x, s, prev):
         y = x.copy()
         y.convert_to_units(tgt)
         return y, None
-    if r == "cconvert_base":
+    if r in ("cconvert_base", "cconvert_mks", "cconvert_cgs", "cconvert_base_imperial"):
         y = x.copy()
-        y.convert_to_base()
+        if r == "cconvert_base":
+            y.convert_to_base()
+        elif r == "cconvert_mks":
+            y.convert_to_mks()
+        elif r == "cconvert_cgs":
+            y.convert_to_cgs()
+        else:
+            y.convert_to_base("imperial")
         return y, None
     if r == "in_base_mks":
         return x.in_base("mks"), None
@@ -326,8 +361,8 @@ def _apply_route(x, s, prev):
 
 def _chain(case):
     np = _U["np"]
-    dt = {"f8": np.float64, "f4": np.float32}[case["dt"]]
-    rtol = RTOL if case["dt"] == "f8" else RTOL_F4
+    dt = np.dtype(_DT[case["dt"]]).type
+    rtol = RTOL
     xs = [float(_frac(p)) for p in case["x0"]]
     ds = [float(_frac(p)) for p in case["x1"]]
     src = name(case["u0"])
@@ -355,13 +390,14 @@ def _chain(case):
                 else:
                     r, forced = prev + 1.0, prev_lab
             elif s["r"] == "add_diff":
-                d = _U["uq"](dt(ds[0]), name(s["v"])) if case["shape"] == "sc" else _U["ua"](np.array(ds, dtype=dt), name(s["v"]))
+                ddt = dt if np.dtype(dt).kind == "f" else np.float64  # the difference readings are not integral
+                d = _U["uq"](ddt(ds[0]), name(s["v"])) if case["shape"] == "sc" else _U["ua"](np.array(ds, dtype=ddt), name(s["v"]))
                 r, forced = x + d, None
             else:
                 r, forced = _apply_route(x, s, prev)
             units = getattr(r, "units", None)
             lab = forced if forced is not None else (_label(units) if units is not None else {"base": "?", "pfx": "bare"})
-            o = {"k": "val", "exc": "", "unit": lab, "v": _vals(r, case, lab, cands, model, rtol)}
+            o = {"k": "val", "exc": "", "unit": lab, "v": _vals(r, case, lab, cands, model, _rtol_of(r, case))}
             prev, prev_lab = r, lab
         except (ValueError, KeyError, AttributeError, NameError, ImportError, LookupError) as e:
             if not type(e).__module__.startswith("unyt"):
